@@ -125,7 +125,10 @@ def run(ctx, widen=False):
 
     O = sympy.Function("O")
     for var in (sympy.Symbol("N", positive=True), sympy.Symbol("N", integer=True), sympy.Symbol("n", real=True, nonnegative=True),
-                sympy.Dummy("N"), sympy.Symbol("a.b.N"), sympy.Symbol("#in_0")):
+                sympy.Dummy("N"), sympy.Symbol("a.b.N"), sympy.Symbol("#in_0"),
+                # … or a symbol whose NAME is also the name of a constant, a function or a sympy singleton (a symbol is a symbol)
+                sympy.Symbol("E"), sympy.Symbol("e"), sympy.Symbol("pi"), sympy.Symbol("oo"), sympy.Symbol("I"), sympy.Symbol("O"),
+                sympy.Symbol("log"), sympy.Symbol("lambda"), sympy.Symbol("infinity"), sympy.Symbol("S"), sympy.Symbol("gamma")):
         for deg in range(0, 5):
             expr = sum(((i + 2) * a**(i % 2) * var**i for i in range(deg + 1)), sympy.Integer(0))
             ctx.stats["evaluations"] += 1
